@@ -148,8 +148,8 @@ func (e *Engine) step(fr *Frame, st *State, in ssa.Instruction) bool {
 	case *ssa.ChangeType:
 		fr.regs[x] = retype(fr.get(e, x.X), x.Type())
 	case *ssa.MakeInterface:
-		h := e.fresh(SInt, "iface")
-		e.assume(app(SBool, ">", h, IntLit(0)))
+		h := e.fresh(e.rs(), "iface")
+		e.assume(e.ridLt(e.ridLit(0), h))
 		fr.regs[x] = Scalar{h, x.Type()}
 		fr.ifaceOf[x] = fr.get(e, x.X)
 	case *ssa.ChangeInterface:
@@ -197,10 +197,10 @@ func (e *Engine) step(fr *Frame, st *State, in ssa.Instruction) bool {
 		if _, isMap := in.(*ssa.MakeMap); isMap {
 			// maps are regions: a new map has a fresh region id
 			h = st.alloc
-			st.alloc = app(SInt, "+", st.alloc, IntLit(1))
+			st.alloc = e.ridNext(st.alloc)
 		} else {
-			h = e.fresh(SInt, "ref")
-			e.assume(app(SBool, ">", h, IntLit(0)))
+			h = e.fresh(e.rs(), "ref")
+			e.assume(e.ridLt(e.ridLit(0), h))
 		}
 		fr.regs[v] = Scalar{h, v.Type()}
 		if mm, ok := in.(*ssa.MakeMap); ok {
@@ -215,14 +215,14 @@ func (e *Engine) step(fr *Frame, st *State, in ssa.Instruction) bool {
 	case *ssa.Lookup:
 		fr.regs[x] = e.lookup(fr, st, x)
 	case *ssa.Range:
-		fr.regs[x] = Scalar{e.fresh(SInt, "rangeiter"), types.Typ[types.Int]}
+		fr.regs[x] = Scalar{e.fresh(e.rs(), "rangeiter"), types.Typ[types.Int]}
 	case *ssa.Next:
 		tt := x.Type().(*types.Tuple)
 		tv := TupleV{Ty: x.Type()}
 		for i := 0; i < tt.Len(); i++ {
 			ft := tt.At(i).Type()
 			if b, ok := ft.(*types.Basic); ok && b.Kind() == types.Invalid {
-				tv.Vs = append(tv.Vs, Scalar{IntLit(0), types.Typ[types.Int]})
+				tv.Vs = append(tv.Vs, Scalar{e.ridLit(0), types.Typ[types.Int]})
 				continue
 			}
 			tv.Vs = append(tv.Vs, e.freshWF(st, ft, "next"))
@@ -282,7 +282,7 @@ func (e *Engine) forceHeap(fr *Frame, a *ssa.Alloc) bool {
 
 func (e *Engine) allocHeap(st *State, et types.Type, pt types.Type) PtrV {
 	rid := st.alloc
-	st.alloc = app(SInt, "+", st.alloc, IntLit(1))
+	st.alloc = e.ridNext(st.alloc)
 	if at, ok := et.Underlying().(*types.Array); ok {
 		// heap arrays live in the element maps
 		p := PtrV{Ty: pt, Rid: rid, Idx: e.ar.idxLit(0), Root: at.Elem(), NonNil: true, ArrBase: true, ArrLen: at.Len()}
@@ -303,7 +303,7 @@ func (e *Engine) nilCheck(st *State, p PtrV, pos token.Pos) {
 	if p.Local != nil || p.NonNil {
 		return
 	}
-	e.oblige("nil", fmt.Sprintf("nil#%d", e.ordinal("nil")), st.guard, Not(Eq(p.Rid, IntLit(0))), pos)
+	e.oblige("nil", fmt.Sprintf("nil#%d", e.ordinal("nil")), st.guard, Not(Eq(p.Rid, e.ridLit(0))), pos)
 }
 
 // load reads through a pointer.
@@ -468,15 +468,15 @@ func (e *Engine) binopVals(st *State, op token.Token, a, b Val, rt types.Type, p
 			case token.NEQ:
 				return Scalar{Not(Eq(as.T, bs.T)), boolT}
 			case token.ADD:
-				f := e.declareFun("strcat", []Sort{SInt, SInt}, SInt)
-				r := Term{fmt.Sprintf("(%s %s %s)", f, as.T.S, bs.T.S), SInt}
+				f := e.declareFun("strcat", []Sort{e.rs(), e.rs()}, e.rs())
+				r := Term{fmt.Sprintf("(%s %s %s)", f, as.T.S, bs.T.S), e.rs()}
 				e.assume(Eq(e.strlen(r), e.ar.idxAdd(e.strlen(as.T), e.strlen(bs.T))))
 				return Scalar{r, rt}
 			case token.LSS, token.LEQ, token.GTR, token.GEQ:
-				f := e.declareFun("strcmp", []Sort{SInt, SInt}, SInt)
-				c := Term{fmt.Sprintf("(%s %s %s)", f, as.T.S, bs.T.S), SInt}
+				f := e.declareFun("strcmp", []Sort{e.rs(), e.rs()}, e.rs())
+				c := Term{fmt.Sprintf("(%s %s %s)", f, as.T.S, bs.T.S), e.rs()}
 				ops := map[token.Token]string{token.LSS: "<", token.LEQ: "<=", token.GTR: ">", token.GEQ: ">="}
-				return Scalar{app(SBool, ops[op], c, IntLit(0)), boolT}
+				return Scalar{app(SBool, ops[op], c, e.ridLit(0)), boolT}
 			}
 			unsupp("string op %s", op)
 		}
@@ -515,19 +515,19 @@ func (e *Engine) binopVals(st *State, op token.Token, a, b Val, rt types.Type, p
 			} else {
 				s = b.(SliceV)
 			}
-			eq = Eq(s.Rid, IntLit(0))
+			eq = Eq(s.Rid, e.ridLit(0))
 		default:
 			ap, aIsP := a.(PtrV)
 			bp, bIsP := b.(PtrV)
 			if aIsP && bIsP {
 				eq = e.ptrEq(ap, bp)
 			} else if aIsP && bok {
-				eq = Eq(ap.Rid, IntLit(0))
+				eq = Eq(ap.Rid, e.ridLit(0))
 				if ap.Local != nil {
 					eq = TFalse
 				}
 			} else if bIsP && aok {
-				eq = Eq(bp.Rid, IntLit(0))
+				eq = Eq(bp.Rid, e.ridLit(0))
 				if bp.Local != nil {
 					eq = TFalse
 				}
@@ -554,7 +554,7 @@ func (e *Engine) ptrEq(a, b PtrV) Term {
 	base := And(Eq(a.Rid, b.Rid), Eq(a.Idx, b.Idx))
 	if typeKey(a.Root) != typeKey(b.Root) || fmt.Sprint(a.Path) != fmt.Sprint(b.Path) {
 		// different static places: equal only if both nil
-		return And(Eq(a.Rid, IntLit(0)), Eq(b.Rid, IntLit(0)))
+		return And(Eq(a.Rid, e.ridLit(0)), Eq(b.Rid, e.ridLit(0)))
 	}
 	return base
 }
@@ -621,7 +621,7 @@ func (e *Engine) index(fr *Frame, st *State, x *ssa.Index) Val {
 }
 
 func (e *Engine) strAt(h, i Term) Term {
-	sa := e.declareFun("strat", []Sort{SInt, e.ar.idxSort()}, e.byteSort())
+	sa := e.declareFun("strat", []Sort{e.rs(), e.ar.idxSort()}, e.byteSort())
 	t := Term{fmt.Sprintf("(%s %s %s)", sa, h.S, i.S), e.byteSort()}
 	if e.ar.mode == ModeInt {
 		e.assume(e.ar.rangeFact(t, types.Typ[types.Uint8]))
@@ -663,8 +663,8 @@ func (e *Engine) sliceOp(fr *Frame, st *State, x *ssa.Slice) Val {
 				hi = &l
 			}
 			e.oblige("slice", name, st.guard, And(a.idxLe(zero, *lo), a.idxLe(*lo, *hi), a.idxLe(*hi, l)), x.Pos())
-			f := e.declareFun("substr", []Sort{SInt, a.idxSort(), a.idxSort()}, SInt)
-			r := Term{fmt.Sprintf("(%s %s %s %s)", f, b.T.S, lo.S, hi.S), SInt}
+			f := e.declareFun("substr", []Sort{e.rs(), a.idxSort(), a.idxSort()}, e.rs())
+			r := Term{fmt.Sprintf("(%s %s %s %s)", f, b.T.S, lo.S, hi.S), e.rs()}
 			e.assume(Implies(st.guard, Eq(e.strlen(r), a.idxSub(*hi, *lo))))
 			return Scalar{r, x.Type()}
 		}
@@ -697,7 +697,7 @@ func (e *Engine) makeSlice(fr *Frame, st *State, x *ssa.MakeSlice) Val {
 // newSlice allocates a zeroed region.
 func (e *Engine) newSlice(st *State, t types.Type, n, c Term) SliceV {
 	rid := st.alloc
-	st.alloc = app(SInt, "+", st.alloc, IntLit(1))
+	st.alloc = e.ridNext(st.alloc)
 	el := t.Underlying().(*types.Slice).Elem()
 	for _, s := range e.slots(el) {
 		k := heapKey(el, s.Path)
@@ -735,7 +735,7 @@ func (e *Engine) convert(fr *Frame, st *State, v Val, to types.Type, pos token.P
 			}
 		}
 		if isString(to) {
-			h := e.fresh(SInt, "str")
+			h := e.fresh(e.rs(), "str")
 			e.assume(e.ar.idxLe(e.ar.idxLit(0), e.strlen(h)))
 			return Scalar{h, to}
 		}
@@ -745,7 +745,7 @@ func (e *Engine) convert(fr *Frame, st *State, v Val, to types.Type, pos token.P
 		return Scalar{e.ar.Convert(x.T, from, to, e.fresh), to}
 	case SliceV:
 		if isString(to) {
-			h := e.fresh(SInt, "str")
+			h := e.fresh(e.rs(), "str")
 			if b, ok := from.Underlying().(*types.Slice).Elem().Underlying().(*types.Basic); ok && b.Kind() == types.Uint8 {
 				e.assume(Implies(st.guard, Eq(e.strlen(h), x.Len)))
 			} else {
